@@ -11,7 +11,11 @@ use crate::verif_hooks;
 pub struct C17P;
 pub static C17: C17P = C17P;
 
-pub const FAMILIES: [&str; 30] = [
+pub const FAMILIES: [&str; 34] = [
+    "definitions-each-using-previous-two-functions",
+    "definitions-each-using-all-previous",
+    "definitions-forward-function-chain",
+    "nested-groups-in-definitions",
     "nested-parens",
     "nested-parens-unclosed",
     "nested-parens-overclosed",
@@ -47,6 +51,35 @@ pub const FAMILIES: [&str; 30] = [
 pub fn family(name: &str, n: usize) -> String {
     let rep = |s: &str, k: usize| s.repeat(k);
     match name {
+        "definitions-each-using-previous-two-functions" => {
+            let mut s = String::from("f0 = (x : int) => x\nf1 = (x : int) => f0 x\n");
+            for i in 2..n.min(1500) {
+                s.push_str(&format!("f{i} = (x : int) => f{} (f{} x)\n", i - 1, i - 2));
+            }
+            s.push_str(&format!("r = f{} 1\nr", n.min(1500).max(2) - 1));
+            s
+        }
+        "definitions-each-using-all-previous" => {
+            let m = n.min(160);
+            let mut s = String::from("v0 = 1 + 1\n");
+            for i in 1..m {
+                let refs: Vec<String> = (0..i).map(|j| format!("v{j}")).collect();
+                s.push_str(&format!("v{i} = {}\n", refs.join(" + ")));
+            }
+            s.push_str("v0");
+            s
+        }
+        "definitions-forward-function-chain" => {
+            let m = n.min(1500);
+            let mut s = String::new();
+            s.push_str("start = g0 1\n");
+            for i in 0..m {
+                s.push_str(&format!("g{i} = (x : int) => g{} x\n", i + 1));
+            }
+            s.push_str(&format!("g{m} = (x : int) => x\nstart"));
+            s
+        }
+        "nested-groups-in-definitions" => format!("{}1{}", (0..n.min(400)).map(|i| format!("y{i} = (z{i} = 1; ")).collect::<String>(), (0..n.min(400)).rev().map(|i| format!("z{i}); y{i}")).collect::<String>()),
         "nested-parens" => format!("{}1{}", rep("(", n), rep(")", n)),
         "nested-parens-unclosed" => format!("{}1", rep("(", n)),
         "nested-parens-overclosed" => format!("{}1{}", rep("(", n / 2), rep(")", n)),
@@ -99,6 +132,7 @@ struct Meas {
     n: usize,
     tokens: u64,
     w: u64,
+    oc: u64,
     cpu_ms: f64,
     capped: bool,
     panicked: Option<String>,
@@ -112,9 +146,11 @@ fn measure(src: &str, n: usize) -> Meas {
     let mut w = 0;
     let mut capped = false;
     let mut panicked = None;
+    let mut oc = 0;
     for _ in 0..2 {
         verif_hooks::reset();
         verif_hooks::set_parse_calls_cap(cap);
+        verif_hooks::set_order_check_calls_cap(cap);
         let t0 = thread_cpu_ms();
         let r = guard(|| {
             if let Ok(ts) = tokenize(None, src) {
@@ -123,9 +159,11 @@ fn measure(src: &str, n: usize) -> Meas {
         });
         let dt = thread_cpu_ms() - t0;
         w = verif_hooks::snapshot().parse_calls;
+        oc = verif_hooks::snapshot().order_check_calls;
         verif_hooks::set_parse_calls_cap(0);
+        verif_hooks::set_order_check_calls_cap(0);
         if let Err(p) = r {
-            if p.contains("parse call cap") {
+            if p.contains("parse call cap") || p.contains("check call cap") {
                 capped = true;
             } else {
                 panicked = Some(p);
@@ -134,7 +172,7 @@ fn measure(src: &str, n: usize) -> Meas {
         }
         best = best.min(dt);
     }
-    Meas { n, tokens, w, cpu_ms: if best == f64::MAX { 0.0 } else { best }, capped, panicked }
+    Meas { n, tokens, w, oc, cpu_ms: if best == f64::MAX { 0.0 } else { best }, capped, panicked }
 }
 
 fn variants(text: &str) -> Vec<(&'static str, String)> {
@@ -156,7 +194,7 @@ impl Prop for C17P {
         let _ = tier;
         let mut p = Plan::new(
             vec![sec("families", FAMILIES.len() as u64 * 3)],
-            "30 input families (nesting, chains, definition sequences, conditionals, malformed and junk-laden variants) x 3 forms (well-formed, truncated at 1/3 and at 2/3) x sizes n = 16,32,...,2048 (quick) / 4096 (thorough); per size the parse-function invocation count W (hook counter) and the thread CPU time are recorded; violation = W exceeds 200*(tokens+2)^2+50000 (cap, aborts the parse) or the local exponent log2(W(2n)/W(n)) exceeds 2.5 for n>=128, or CPU-time exponent above 2.8 where both times are >=300 ms; non-trivial = distinct (family, form, size) input with at least 64 tokens",
+            "34 input families (nesting, chains, definition sequences, conditionals, malformed and junk-laden variants) x 3 forms (well-formed, truncated at 1/3 and at 2/3) x sizes n = 16,32,...,2048 (quick) / 4096 (thorough); per size the parse-function invocation count W and the definition-order check invocation count (hook counters) and the thread CPU time are recorded; violation = W exceeds 200*(tokens+2)^2+50000 (cap, aborts the parse) or the local exponent log2(W(2n)/W(n)) exceeds 2.5 for n>=128, or CPU-time exponent above 2.8 where both times are >=300 ms; non-trivial = distinct (family, form, size) input with at least 64 tokens",
         );
         p.assumptions = vec![
             "W counts invocations of the 36 memoised parse functions; tokenizing, reassociation, variable resolution and the definition-order check are only seen by the CPU-time measure".into(),
@@ -184,10 +222,11 @@ impl Prop for C17P {
             }
             ctx.max("max_tokens", m.tokens);
             ctx.max("max_parse_calls", m.w);
+            ctx.max("max_order_check_calls", m.oc);
             if m.tokens > 0 {
                 ctx.max("max_parse_calls_per_token_x100", m.w * 100 / m.tokens);
             }
-            let detail = |m: &Meas| Json::obj().set("family", Json::s(fam)).set("form", Json::s(form_name)).set("n", Json::Int(m.n as i64)).set("tokens", Json::Int(m.tokens as i64)).set("parse_calls", Json::Int(m.w as i64)).set("cpu_ms", Json::Num(m.cpu_ms)).set("input_head", Json::s(&clip(&text, 120)));
+            let detail = |m: &Meas| Json::obj().set("family", Json::s(fam)).set("form", Json::s(form_name)).set("n", Json::Int(m.n as i64)).set("tokens", Json::Int(m.tokens as i64)).set("parse_calls", Json::Int(m.w as i64)).set("order_check_calls", Json::Int(m.oc as i64)).set("cpu_ms", Json::Num(m.cpu_ms)).set("input_head", Json::s(&clip(&text, 120)));
             if let Some(p) = &m.panicked {
                 // a crash is C14's business; here the run tells us nothing about growth
                 ctx.inconclusive("panic-during-measurement");
@@ -195,10 +234,18 @@ impl Prop for C17P {
                 break;
             }
             if m.capped {
-                ctx.violation("parse-work-cap-exceeded", &format!("family {fam} ({form_name}) at n={n}: more than 200*(tokens+2)^2+50000 parse-function invocations for {} tokens", m.tokens), detail(&m));
+                ctx.violation("parse-work-cap-exceeded", &format!("family {fam} ({form_name}) at n={n}: more than 200*(tokens+2)^2+50000 parse-function (or definition-order check) invocations for {} tokens", m.tokens), detail(&m));
                 break;
             }
             if let Some(p) = &prev {
+                if p.oc > 1000 && m.oc > 0 && p.tokens >= 100 {
+                    let e = ((m.oc as f64) / (p.oc as f64)).log2() / ((m.tokens.max(1) as f64) / (p.tokens.max(1) as f64)).log2().max(0.5);
+                    ctx.max("max_order_check_exponent_x100", (e * 100.0).max(0.0) as u64);
+                    if e > 2.5 {
+                        ctx.violation("order-check-work-superquadratic", &format!("family {fam} ({form_name}): definition-order check invocations grow with local exponent {e:.2} between n={} and n={n}", p.n), detail(&m));
+                        break;
+                    }
+                }
                 if p.w > 0 && m.w > 0 && p.tokens >= 100 {
                     let e = ((m.w as f64) / (p.w as f64)).log2() / ((m.tokens.max(1) as f64) / (p.tokens.max(1) as f64)).log2().max(0.5);
                     ctx.max("max_local_exponent_x100", (e * 100.0).max(0.0) as u64);
